@@ -22,9 +22,27 @@ def task_shapes(full=True):
 
 
 def sample(rng, xs, k):
+    """Seeded sample; lists of problems are sampled per tag (round robin), so that every element class of a
+    family is represented in the quick tier."""
     xs = list(xs)
     if k is None or k >= len(xs):
         return xs
+    if xs and isinstance(xs[0], dict) and "tag" in xs[0]:
+        groups = {}
+        for x in xs:
+            groups.setdefault(x["tag"], []).append(x)
+        for g in groups.values():
+            rng.shuffle(g)
+        out = []
+        while len(out) < k:
+            progressed = False
+            for tag in sorted(groups):
+                if groups[tag] and len(out) < k:
+                    out.append(groups[tag].pop())
+                    progressed = True
+            if not progressed:
+                break
+        return out
     return rng.sample(xs, k)
 
 
@@ -34,7 +52,7 @@ def fam_C01(tier, seed):
     full = tier == "thorough"
     ps = []
     releases = (None, 0, 1, 2)
-    dues = [(None, True), (1, True), (3, True), (1, False), (3, False)]
+    dues = [(None, True), (0, True), (1, True), (3, True), (1, False), (3, False)]
     grid = []
     for (kind, kw), optional, rel, (due, dl), H, uh in itertools.product(
             task_shapes(True), (False, True), releases, dues, (3, 5) if full else (4,), (True, False)):
@@ -130,7 +148,7 @@ def fam_C02(tier, seed):
         b.require(c, worker=w)
         ps.append(b.done())
     # dynamic assignment
-    for (k1, kw1), work, prod in itertools.product([("F", dict(dur=2)), ("V", dict(min=1, max=3))], (0, 3), (1, 2)):
+    for (k1, kw1), work, prod in itertools.product([("F", dict(dur=2)), ("V", dict(min=1, max=3)), ("V", dict(min=0, max=2))], (0, 1, 3), (0, 1, 2)):
         b = PB(4, tag="dynamic")
         a = b.task("A", k1, work=work, **kw1)
         c = b.task("B", "F", dur=1)
@@ -188,7 +206,7 @@ def fam_C02(tier, seed):
     b.require(d, worker=w)
     ps.append(b.done())
     # work amounts and productivities
-    for work, p1, p2, (k1, kw1), sel in itertools.product((0, 2, 5), (0, 1, 2), (1, 2),
+    for work, p1, p2, (k1, kw1), sel in itertools.product((0, 1, 2, 5), (0, 1, 2), (1, 2),
                                                           [("V", dict(min=0, max=4)), ("F", dict(dur=2)), ("V", dict(min=0, allowed=[1, 3]))],
                                                           (False, True)):
         b = PB(4, tag="work")
@@ -264,14 +282,14 @@ def fam_C03(tier, seed):
             b.con(cls, t1=a, t2=c)
             ps.append(b.done())
     # contiguous, groups
-    triples = [("F1", "F2", "F1"), ("F1", "V", "F1"), ("F1", "F1", "Z"), ("F2", "F1")]
+    triples = [("F1", "F2", "F1"), ("F1", "V", "F1"), ("F1", "F1", "Z"), ("F2", "F1"), ("Z", "Z"), ("Z", "V")]
     for ks, op in itertools.product(triples, [(), (0,), (1,)]):
         b = PB(4 if len(ks) == 3 else 4, tag="TasksContiguous")
         ts = _mix(b, ks, optional=op)
         b.con("TasksContiguous", tasks=ts)
         ps.append(b.done())
         for cls, interval, length in itertools.product(("UnorderedTaskGroup", "OrderedTaskGroup"),
-                                                       (None, (0, 3), (1, 4), (1, 2)), (None, 2, 3)):
+                                                       (None, (0, 3), (1, 4), (1, 2), (0, 0)), (None, 0, 2, 3)):
             if interval is not None and length is not None:
                 continue
             kinds = ("lax", "strict", "tight") if cls == "OrderedTaskGroup" else (None,)
